@@ -678,7 +678,8 @@ impl<'a> Sim<'a> {
     // Byzantine servers (DESIGN §4.4): correctly signed events an honest server would not send
 
     fn byzantine_twist(&mut self, n: usize, d: &mut Draft, view: &View, state: &StateSet) {
-        let twist = self.t.below(9);
+        // room versions 1-2: the event-id server rule deserves more than one twist in nine
+        let twist = if view.v <= 2 && self.t.chance(1, 4) { 8 } else { self.t.below(9) };
         let dag_ids: Vec<String> = self.servers[n].have.keys().cloned().collect();
         match twist {
             0 => {
